@@ -184,6 +184,10 @@ def run_kernel(k, fns, wrapping, fields, budget):
             if getattr(k, "unroll", 0):
                 ex.unroll = k.unroll
                 ex.max_paths = 60000
+            else:
+                # a loop (none on the pinned tree) does not make the whole kernel undecidable: the paths
+                # through it are cut at the back edge and reported as not decided, the loop-free paths are decided
+                ex.cut_loops = True
             st = mirsmt.State(sym, wrapping)
             kernels.tup_order[0] = fields
             if getattr(k, "needs_state", False):
@@ -216,6 +220,7 @@ def run_kernel(k, fns, wrapping, fields, budget):
             # a callee that unwinds is a panic of the kernel
             okind = "panic" if o.kind == "unwind" else o.kind
             if o.kind == "cut" and not getattr(k, "unroll", 0):
+                out["cut_paths"] = out.get("cut_paths", 0) + 1
                 continue
             if getattr(k, "needs_state", False):
                 post = k.post(okind, o.state.events, o.value, d, state=o.state)
@@ -234,6 +239,9 @@ def run_kernel(k, fns, wrapping, fields, budget):
         from concurrent.futures import ThreadPoolExecutor
         with ThreadPoolExecutor(max_workers=6) as pool:
             done = list(pool.map(work, jobs))
+        if out.get("cut_paths") and not any("not decided (the other paths are)" in u for u in out["undecided"]):
+            why = sorted(set(getattr(ex, "unsupported_paths", [])))[:2]
+            out["undecided"].append(f"{name}: {out['cut_paths']} path(s) run into a loop back edge or a construct outside the MIR subset {why} and are not decided (the other paths are)")
         for (o, base, names_in), (verdict, verdicts, dt, model) in done:
             out["queries"] += 1
             out["solver_s"] += dt
@@ -346,9 +354,9 @@ def parse_model(out, inputs):
 STATE_PROPS = {
     "C01": ({"panic", "return"}, None),
     "C06": ({"panic"}, r"^(insert|push)_(row|col)$"),
-    "C07": ({"panic"}, r"^remove_(row|col)$"),
+    "C07": ({"panic"}, r"^(remove|pop)_(row|col)$"),
     "C11": ({"caller"}, None),
-    "C12": ({"return"}, r"^remove_(row|col)$"),
+    "C12": ({"return"}, r"^(remove|pop)_(row|col)$"),
 }
 
 
@@ -392,7 +400,8 @@ def run_property(prop, tier="quick"):
     """-> (results list, summary dict)"""
     t0 = time.time()
     fields = kernels.struct_fields("/repo/src")
-    ks = [k for k in kernels.all_kernels() if k.prop == prop or (prop == "C02" and k.prop == "C09" and k.kid.startswith("col"))]
+    ks = [k for k in kernels.all_kernels() if k.prop == prop or (prop == "C02" and k.prop == "C09" and k.kid.startswith("col"))
+          or (prop == "C04" and re.search(r"viewmut|rowsmut|colmut", k.kid) and k.prop in ("C08", "C09", "C13", "C14"))]
     results = []
     if not ks and prop not in STATE_PROPS and prop != "C10":
         return results, {"kernels": 0}
@@ -419,7 +428,7 @@ def run_property(prop, tier="quick"):
                 if only and not re.search(only, meth):
                     continue
                 # a live drain at return is C12's business, not C01's
-                if prop == "C01" and meth in ("remove_row", "remove_col"):
+                if prop == "C01" and meth in ("remove_row", "remove_col", "pop_row", "pop_col"):
                     r["sat"] = [x for x in r["sat"] if x["path_kind"] != "return"]
                 if prop == "C12":
                     r["sat"] = [x for x in r["sat"] if x["path_kind"] == "return"]
@@ -540,12 +549,58 @@ def st_models(fields):
     def shrink(ex, st, callee, args, ty):
         return m_ret(st, Tup([]))
 
+    def set_self_len(state, new_len):
+        tup = state.roots.get("self").cell.v
+        for i, f in enumerate(tup.fs):
+            if isinstance(f, Slice):
+                tup.fs[i] = Slice(f.buf, f.off, new_len)
+
+    def vec_extend(ex, st, callee, args, ty):
+        """Vec::extend / extend_from_slice / append on the receiver's own Vec: the length grows by some
+        k >= 0 elements (whatever the caller's iterator yields); the iterator is caller code, so the call
+        may also unwind with any intermediate length."""
+        r = args[0]
+        cur = val_of(r)
+        if not isinstance(cur, Slice) or not isinstance(r, (FieldRef, Ref)):
+            return caller_code(ex, st, callee, args, ty)
+        k, j = st.sym.int("grown"), st.sym.int("grownmid")
+        s2 = st.fork()
+        s2.pc.append(f"(and (>= {j} 0) (<= (+ {cur.len} {j}) {kernels.ISIZE_MAX}))")
+        s2.events.append(("caller", "caller's iterator in " + callee.split("::<")[0]))
+        set_self_len(s2, f"(+ {cur.len} {j})")
+        st.pc.append(f"(and (>= {k} 0) (<= (+ {cur.len} {k}) {kernels.ISIZE_MAX}))")
+        mirsmt.store_through(r, Slice(cur.buf, cur.off, f"(+ {cur.len} {k})"))
+        return [(st, Tup([]), "return", ""), (s2, None, "unwind", "caller code: iterator passed to " + callee.split("::<")[0])]
+
+    def vec_push(ex, st, callee, args, ty):
+        r = args[0]
+        cur = val_of(r)
+        if not isinstance(cur, Slice) or not isinstance(r, (FieldRef, Ref)):
+            return no_unwind(ex, st, callee, args, ty)
+        mirsmt.store_through(r, Slice(cur.buf, cur.off, f"(+ {cur.len} 1)"))
+        return m_ret(st, Tup([]))
+
+    def vec_truncate(ex, st, callee, args, ty):
+        """Vec::truncate(n): the length becomes min(len, n) first, then the tail is dropped (caller code)."""
+        r, n = args[0], args[1]
+        cur = val_of(r)
+        if not isinstance(cur, Slice) or not isinstance(r, (FieldRef, Ref)):
+            return caller_code(ex, st, callee, args, ty)
+        new = f"(ite (< {n.t} {cur.len}) {n.t} {cur.len})"
+        mirsmt.store_through(r, Slice(cur.buf, cur.off, new))
+        s2 = st.fork()
+        s2.events.append(("caller", "<T as Drop>::drop in Vec::truncate"))
+        return [(st, Tup([]), "return", ""), (s2, None, "unwind", "caller code <T as Drop>::drop in Vec::truncate")]
+
     return [
         (CALLER_CODE, caller_code),
         (r"Vec::<.*>::set_len$", set_len),
         (r"Vec::<.*>::clear$", clear),
         (r"Vec::<.*>::(reserve|reserve_exact)$", reserve),
         (r"Vec::<.*>::shrink_to_fit$", shrink),
+        (r"<Vec<.*> as Extend<.*>>::extend|Vec::<.*>::(extend_from_slice|append|extend_from_within)", vec_extend),
+        (r"Vec::<.*>::push$", vec_push),
+        (r"Vec::<.*>::truncate$", vec_truncate),
         (r"Vec::<.*>::drain::<", drain),
         (r"^core::mem::swap::<", mem_swap),
         (r"Vec::<.*>::fill$|slice::<impl \[.*\]>::fill$", caller_code),
@@ -577,7 +632,7 @@ class ExecS(ExecB):
         return [(s_ret, mirsmt.fresh_of_type(dest_ty, st.sym, "h"), "return", "")]
 
 
-STATE_TWINS = {"insert_row": 0, "push_row": 0, "insert_col": 1, "push_col": 1, "remove_row": 2, "remove_col": 3, "clone_from": 4}
+STATE_TWINS = {"insert_row": 0, "push_row": 0, "insert_col": 1, "push_col": 1, "remove_row": 2, "remove_col": 3, "clone_from": 4, "pop_row": 5, "pop_col": 6}
 
 
 def run_state_kernels(fns, wrapping, fields, want):
@@ -587,7 +642,7 @@ def run_state_kernels(fns, wrapping, fields, want):
         if not f.args or not re.match(r"^&mut toodee::TooDee<T>$", f.args[0][1]):
             continue
         meth = name.split("::")[-1]
-        if "{closure" in name or meth in ("index_mut", "data_mut", "as_mut", "rows_mut", "col_mut", "view_mut", "get_unchecked_mut", "get_unchecked_row_mut", "into_iter", "pop_row", "pop_col"):
+        if "{closure" in name or meth in ("index_mut", "data_mut", "as_mut", "rows_mut", "col_mut", "view_mut", "get_unchecked_mut", "get_unchecked_row_mut", "into_iter"):
             continue
         res = {"kernel": "state_" + meth, "function": name, "semantics": "wrapping (overflow-checks=off)" if wrapping else "checked (overflow-checks=on)",
                "what": f"{meth}: the shape invariant holds at every exit ({'/'.join(sorted(want))})", "paths": 0, "queries": 0, "unsat": 0, "sat": [],
@@ -642,7 +697,7 @@ def run_state_kernels(fns, wrapping, fields, want):
                 # prefer a witness the native twin can run: everything small, else one small dimension
                 # (the fill loops of insert_row / insert_col run num_cols / num_rows times)
                 dims = {n: t for n, t in ctx.inputs.items() if n.split("_")[-1] in ("cols", "rows", "len")}
-                prefs = [[f"(<= {t} 8)" for t in dims.values()]]
+                prefs = [[f"(<= {t} 8)" for t in dims.values()], [f"(<= {t} 100)" for t in dims.values()], [f"(<= {t} 4096)" for t in dims.values()]]
                 prefs += [[f"(<= {t} 8)" for n, t in dims.items() if n.endswith(k)] for k in (("rows", "cols") if "col" in meth else ("cols", "rows"))]
                 wit = None
                 for extra in prefs:
